@@ -76,7 +76,8 @@ set_option maxRecDepth 1000000 in
 theorem discard_facts_ok : Gen.discardFacts.all DiscardFact.ok = true := by decide
 
 set_option maxRecDepth 1000000 in
-theorem discard_facts_nonempty : 100 ≤ Gen.discardFacts.length := by decide
+/-- the extractor did find the call sites (guards against a vacuous `discard_facts_ok`) -/
+theorem discard_facts_nonempty : 50 ≤ Gen.discardFacts.length := by decide
 
 /-- **conversions_fresh.**  Each of `value.ToInteger`, `ToIntegerStrictly`, `ToFloat`, `ToDatetime`,
     `ToBoolean`, `ToString` returns the result of a `value.New*` call on every path (never its
